@@ -175,7 +175,9 @@ RET_OWNER = {
     "Insert": "C01", "Remove": "C01", "RemoveKeepTree": "C01", "Clear": "C01", "Get": "C01", "GetKV": "C01",
     "Contains": "C01", "Lpm": "C02", "Iter": "C03", "Len": "C04", "Spm": "C09", "Cover": "C09",
     "Children": "C10", "Retain": "C10", "RemoveChildren": "C10", "PathReplay": "C01",
+    "Entry": "C01", "GetMut": "C01", "LpmMut": "C02", "IterMut": "C03", "ValuesMut": "C03", "ChildrenMut": "C10",
 }
+MUT_TRAVERSALS = {"GetMut", "LpmMut", "IterMut", "ValuesMut", "ChildrenMut"}
 
 
 def owners(mm):
@@ -185,13 +187,18 @@ def owners(mm):
     if kind == "pre":
         return {"C01"}
     if kind == "ret":
-        return {RET_OWNER.get(act, "C01")}
+        o = {RET_OWNER.get(act, "C01")}
+        if act in MUT_TRAVERSALS:
+            o.add("C13")
+        return o
     if kind == "pan":
         return {"C20", RET_OWNER.get(act, "C01")}
     if kind == "entries":
         o = {"C01"}
         if act in ("RemoveChildren", "Retain"):
             o.add("C10")
+        if act in MUT_TRAVERSALS:
+            o.add("C13")
         # only host tokens differ -> the stored representation (C18)
         try:
             e1 = [[x[0], x[2]] for x in mm["expected"]]
